@@ -246,12 +246,72 @@ func Menu() []udpx.Op {
 			udpx.Op{K: "S", C: c, Key: 0, T: 1, N: 3, Mod: "badtype"},
 			udpx.Op{K: "S", C: c, Key: 0, T: 1, N: 3, Mod: "private"},
 			udpx.Op{K: "S", C: c, Key: 1, T: 1, N: 7, Mod: "domain"},
+			udpx.Op{K: "S", C: c, Key: 1, T: 1, N: 7, Mod: "private-domain"},
+			udpx.Op{K: "R", C: c, T: 0, N: 6}, // same IP as target 1, other port
 			udpx.Op{K: "R", C: c, T: 1, N: 1400},
 			udpx.Op{K: "R", C: c, T: 2, N: 0},
 			udpx.Op{K: "X", C: c, T: 0, N: 11},
 		)
 	}
 	return m
+}
+
+// twoListeners: one service, two UDP listeners (two Handle loops on the same handler), two
+// clients sending at once to different listeners, then replies. Explored under every schedule
+// within the bound; every datagram must arrive with its own payload and its own source.
+func twoListeners(i int, ops []udpx.Op) *engine.Scenario {
+	tr := &udpx.Trace{}
+	sc := &engine.Scenario{Name: fmt.Sprintf("udp-two-listeners-%d", i), Opt: vrt.Options{Horizon: udpx.Horizon}}
+	sc.Body = func() {
+		udpx.Run(udpx.Config{Keys: udpx.DefaultKeys(), NatTimeout: natTimeout, Listeners: 2}, ops, tr)
+	}
+	sc.Check = func(x *vrt.Exec) (string, bool, []*engine.Finding) {
+		fs := hk.Generic(x, hk.Opts{Leaks: true, Races: true})
+		if len(fs) > 0 {
+			return "generic", true, fs
+		}
+		obs := ""
+		for si, st := range tr.Steps {
+			if st.Op.K != "P" {
+				continue
+			}
+			want := map[string]bool{}
+			n := 0
+			for _, sub := range st.Sub {
+				if sub.Op.K == "S" {
+					want[string(sub.Plain)] = true
+					n++
+				}
+			}
+			if n > 0 && len(st.TargetRecv) != n {
+				fs = append(fs, &engine.Finding{Sig: "valid-datagram-not-forwarded", Msg: fmt.Sprintf("step %d: %d datagrams sent at once to two listeners of one service, %d reached the targets", si, n, len(st.TargetRecv))})
+			}
+			ports := map[int]int{}
+			for _, r := range st.TargetRecv {
+				obs += fmt.Sprint(len(r.Data), ";")
+				if !want[string(r.Data)] {
+					fs = append(fs, &engine.Finding{Sig: "payload-corrupt", Msg: fmt.Sprintf("step %d: a target received %d bytes that no client sent in this step (two listeners of one service, concurrent datagrams)", si, len(r.Data))})
+				} else if len(r.Data) >= 2 {
+					if c, ok := ports[r.FromUDP.Port]; ok && c != int(r.Data[0]) {
+						fs = append(fs, &engine.Finding{Sig: "shared-source", Msg: fmt.Sprintf("step %d: two clients left from server port %d", si, r.FromUDP.Port)})
+					}
+					ports[r.FromUDP.Port] = int(r.Data[0])
+				}
+			}
+		}
+		if len(tr.Recovered) > 0 {
+			fs = append(fs, &engine.Finding{Sig: "recovered-panic", Msg: fmt.Sprint(tr.Recovered)})
+		}
+		return obs, true, fs
+	}
+	return sc
+}
+
+func twoListenerInputs() [][]udpx.Op {
+	return [][]udpx.Op{
+		{{K: "P", Par: []udpx.Op{{K: "S", C: 0, Key: 0, T: 1, N: 40, L: 0}, {K: "S", C: 1, Key: 1, T: 2, N: 30, L: 1}}}},
+		{{K: "S", C: 0, Key: 0, T: 1, N: 10, L: 0}, {K: "S", C: 1, Key: 1, T: 1, N: 10, L: 1}, {K: "P", Par: []udpx.Op{{K: "S", C: 0, Key: 0, T: 1, N: 50, L: 0}, {K: "S", C: 1, Key: 1, T: 2, N: 60, L: 1}}}},
+	}
 }
 
 func scenario(unit string, ops []udpx.Op, limitStrict int) *engine.Scenario {
@@ -311,6 +371,13 @@ func init() {
 			}
 			ctx.RunCase("udp-sizes", "E", scenario("udp-sizes", ops, 65000), seqInput{ops}, nil)
 		}
+		bound := 2
+		if ctx.Tier == "thorough" {
+			bound = 3
+		}
+		for i, in := range twoListenerInputs() {
+			engine.ExploreS(ctx, twoListeners(i, in), engine.SConfig{Bound: bound, Shard: ctx.Shard, NShards: ctx.NShards, Deadline: ctx.Deadline})
+		}
 		depth := 3
 		if ctx.Tier == "thorough" {
 			depth = 4
@@ -339,6 +406,13 @@ func init() {
 		ctx.Res.Note("udp-seq: all %d^%d sequences over the %d-operation menu", len(menu), depth, len(menu))
 	})
 	hk.Replayers["C03"] = func(ctx *engine.Ctx, rp engine.Replay) []*engine.Finding {
+		if len(rp.Unit) > 17 && rp.Unit[:17] == "udp-two-listeners" {
+			var scs []*engine.Scenario
+			for i, in := range twoListenerInputs() {
+				scs = append(scs, twoListeners(i, in))
+			}
+			return engine.ReplayScenario(scs, rp)
+		}
 		var in seqInput
 		if err := json.Unmarshal(rp.Input, &in); err != nil {
 			return []*engine.Finding{{Sig: "BROKEN:bad-input", Msg: err.Error()}}
